@@ -28,7 +28,10 @@ def entries_ml(entries):
     return mlist(out)
 
 
-def surf_line(sph, s, p):
+def surf_line(sph, s, p, slot=None, key="features/0/max_depth"):
+    if slot is not None:
+        # the lookup on the surface the world itself built from its file (constructor, triangulation, kd-tree and all)
+        return "wsurf %d %s %s %s %s" % (slot, key, "s" if sph else "c", fhex(p[0]), fhex(p[1]))
     tri = " ".join(fhex(x) for t in s["tris"] for v in t for x in v)
     nodes = " ".join("%d %s %s" % (nd[0], fhex(nd[1]), fhex(nd[2])) for nd in s["nodes"])
     return "surf %s %d %s %d %s %s %s" % ("s" if sph else "c", len(s["tris"]), tri, len(s["nodes"]), nodes, fhex(p[0]), fhex(p[1]))
@@ -185,7 +188,7 @@ def run(chk):
             # the same points written on the other 360-degree branch of the longitude
             qs += [((q[0] - 2 * PI) if q[0] > 0 else (q[0] + 2 * PI), q[1]) for q in qs[-nq:]]
         for q in qs:
-            i = cs.raw(surf_line(sph, s, q), surf_ml(sph, s, q), {"kind": "surf", "spherical": sph, "point": q, "world": wj})
+            i = cs.raw(surf_line(sph, s, q, slot), surf_ml(sph, s, q), {"kind": "surf", "spherical": sph, "point": q, "world": wj})
             plan.append(("surf", i, s, q, wj, affine, sph))
         # expectations at listed points and corners
         last = {}
@@ -212,7 +215,7 @@ def run(chk):
         for c, v in list(cur.items()) + list(extra.items()):
             q = conv(sph, c) if c in extra or True else None
             qn = conv(sph, c) if c in extra else dict(zip(map(tuple, poly), cn))[c]
-            i = cs.raw(surf_line(sph, s, qn), surf_ml(sph, s, qn), {"kind": "surf-node", "point": list(c), "expected": v, "world": wj})
+            i = cs.raw(surf_line(sph, s, qn, slot), surf_ml(sph, s, qn), {"kind": "surf-node", "point": list(c), "expected": v, "world": wj})
             plan.append(("node", i, v, c, wj, c in d8))
         # (d) world level: composition switches at the interpolated depth
         for _ in range(4):
